@@ -5,7 +5,7 @@ vars == <<s, vm, last>>
 InitItems == {1, 2, 3}
 ArgItems  == {1, 2, 4, 11, 99}
 ItemArgs  == {1, 4, 11, 99}
-Init == s \in SUBSET InitItems /\ vm \in VModes /\ last = [op |-> "init"]
+Init == s \in SUBSET InitItems /\ vm \in {"id", "coerce"} /\ last = [op |-> "init"]
 Do(op, a, As, got) ==
   LET r == Apply(op, s, vm, a, As, got) IN
   /\ s' = r.post
@@ -18,7 +18,8 @@ Clear    == Do("clear", <<0, 0>>, <<>>, None)
 Multi(op) == \/ Do(op, <<0, 0>>, <<>>, None)
              \/ \E A \in SUBSET ArgItems : Do(op, <<0, 0>>, <<A>>, None)
              \/ \E A \in SUBSET ArgItems, B \in SUBSET ArgItems : Do(op, <<0, 0>>, <<A, B>>, None)
-Single(op) == \E A \in SUBSET ArgItems, form \in {0, 1} : Do(op, <<form, 0>>, <<A>>, None)
+Single(op) == \E A \in SUBSET ArgItems, form \in {0, 1, 2} :
+                 (form < 2 \/ op \in InplaceOps) /\ Do(op, <<form, 0>>, <<A>>, None)
 Construct == s = {} /\ \E A \in SUBSET ArgItems : Do("construct", <<0, 0>>, <<A>>, None)
 CopyAdd  == \E k \in {0, 1, 2}, x \in {3, 11, 99} : Do("copyadd", <<k, x>>, <<>>, None)
 Next == last.op = "init" /\
